@@ -231,6 +231,15 @@ pub assume_specification<T>[<*const T>::is_aligned](p: *const T) -> (r: bool)
 
 /// `x.next_multiple_of(m)`: panics for m == 0 and (with overflow checks) when the result does not fit:
 /// both are obligations here, like every arithmetic overflow
+/// `Option::map_or_else` (core): `None` -> `default()`, `Some(x)` -> `f(x)`  (TRUSTED std specification)
+pub assume_specification<T, U, D: FnOnce() -> U, F: FnOnce(T) -> U>[Option::<T>::map_or_else](o: Option<T>, default: D, f: F) -> (r: U)
+    requires
+        o is None ==> default.requires(()),
+        o is Some ==> f.requires((o->Some_0,)),
+    ensures
+        o is None ==> default.ensures((), r),
+        o is Some ==> f.ensures((o->Some_0,), r);
+
 pub assume_specification[u32::next_multiple_of](x: u32, m: u32) -> (r: u32)
     requires m != 0, ((x as int + m as int - 1) / (m as int)) * (m as int) <= u32::MAX,
     ensures r as int == ((x as int + m as int - 1) / (m as int)) * (m as int);
